@@ -5,6 +5,7 @@ use crate::util::{Ctx, Tier};
 pub mod c03;
 pub mod c04;
 pub mod c06;
+pub mod c08;
 pub mod c10;
 pub mod c11;
 pub mod c13;
@@ -24,6 +25,7 @@ pub fn run(id: &str, tier: Tier, seed: u64) -> i32 {
         "C03" => c03::run(&Ctx::new(id, tier, seed, 40.0, 360.0)),
         "C04" => c04::run(&Ctx::new(id, tier, seed, 60.0, 900.0)),
         "C06" => c06::run(&Ctx::new(id, tier, seed, 45.0, 480.0)),
+        "C08" => c08::run(&Ctx::new(id, tier, seed, 60.0, 600.0)),
         "C10" => c10::run(&Ctx::new(id, tier, seed, 40.0, 360.0)),
         "C11" => c11::run(&Ctx::new(id, tier, seed, 45.0, 360.0)),
         "C13" => c13::run(&Ctx::new(id, tier, seed, 60.0, 600.0)),
